@@ -34,6 +34,7 @@ VARIANTS = [
     {"name": "user", "kinds": ["user", "axis", "redn"], "p": 0.7},
     {"name": "all", "kinds": ["stored", "inlined", "subst", "prefix", "named", "user",
                               "axis", "redn"], "p": 0.7},
+    {"name": "subst", "kinds": ["subst"], "p": 0.9},
 ]
 
 
@@ -122,6 +123,15 @@ def programs(tier: str) -> list[dict]:
         ops = progspace.ALL_OPS + progspace.ALPHABET["reduce"] * 2 + ["einsum", "matmul"] * 2
         progs.append(progspace.random_program(rng, f"t{k}", int(rng.integers(2, 8)), ops=ops))
     progs += list(progspace.fam_lpcall(rng, 40 if tier == "quick" else 600))
+    # reductions whose BOUNDS depend on the output index (sparse matmul), read by
+    # a consumer: every implementation strategy on the reduction node
+    for p in progspace.fam_csr(rng, 8 if tier == "quick" else 60):
+        n = len(p["inputs"]) + len(p["calls"])
+        p["calls"] += [{"op": "mul", "a": n, "b": {"py": "float", "v": "2.0"}},
+                       {"op": "add", "a": n + 1, "b": n}]
+        p["outs"] = {"out0": n + 2, "out1": n + 1}
+        p["nvar"] = len(VARIANTS)
+        progs.append(p)
     # directed shapes: a stored node used by two reductions; shared reduction
     x = progspace.inp("x", (3, 4))
     progs.append({"id": "d/two_redn_of_stored", "inputs": [x],
@@ -171,7 +181,10 @@ def main(tier: str, only: list[dict] | None = None) -> int:
                           f"{r['id']} variant {pr['variant']} (tags {pr.get('tags')}): "
                           f"{pr['clause']}: {pr['what']}", record=rec,
                           sig={"clause": pr["clause"], "variant": pr["variant"],
-                               "exc": pr.get("exc", ""), "what": pr["what"][:70]})
+                               "exc": pr.get("exc", ""), "what": pr["what"][:70],
+                               "where": (pr.get("where") or "").strip().rpartition(" in ")[2][:60],
+                               "named_array_tagged": bool((pr.get("tags") or {}).get(
+                                   "user_on_named"))})
     kmap = {k["id"]: by_id[k["id"].split("|")[0]] for k in kernels}
     c01.check_kernels(run, kernels, kmap)
     run.coverage.update({
